@@ -71,6 +71,8 @@ type world struct {
 	id           int
 	bornToks     []string
 	removeFailed int
+	first        string // listener whose announcement is entry 0 of the retained log
+	firstRemoved bool
 }
 
 var worldSeq atomic.Int64
@@ -136,11 +138,20 @@ func calledBelow(name string) bool {
 
 func newWorld() (*world, error) {
 	installHooks()
-	r, err := rig.New(rig.Options{Full: true, Operators: operatorList()})
+	// as after a start with a listener in the profile: the oldest entry of the retained log is
+	// that listener's announcement, recorded before any operator has connected
+	id := int(worldSeq.Add(1))
+	first := fmt.Sprintf("c11-first-%d", id)
+	r, err := rig.New(rig.Options{Full: true, Operators: operatorList(),
+		ExtraProfile: fmt.Sprintf("Listeners {\n    Smb {\n        Name = %q\n        PipeName = %q\n    }\n}\n", first, "p"+first)})
 	if err != nil {
 		return nil, err
 	}
-	w := &world{r: r, ts: r.TS, addr: fmt.Sprintf("127.0.0.1:%d", r.Port), m: newModel(), id: int(worldSeq.Add(1))}
+	w := &world{r: r, ts: r.TS, addr: fmt.Sprintf("127.0.0.1:%d", r.Port), m: newModel(), id: id, first: first}
+	w.m.listenerAdded(w.first, false)
+	if l := snapshotLog(r.TS.EventsList); len(l) == 0 || listenerOf(l[0]) != w.first {
+		return nil, fmt.Errorf("first listener: its announcement is not entry 0 of the retained log (%d entries)", len(l))
+	}
 	for _, n := range monitorNames {
 		var c *opclient.Client
 		var err error
